@@ -74,9 +74,16 @@ class StaticField(Field):
                 )
                 encode_state.cursor_byte_position = pos_before + self.item_byte_size
             elif pos_after - pos_before < self.item_byte_size:
-                # add some padding bytes
-                encode_state.emplace_bytes(b'\x00' * (self.item_byte_size -
-                                                      (pos_after - pos_before)))
+                # add some padding bytes. Note that parameters which
+                # specify an explicit position may already have been
+                # placed behind the cursor, i.e., only the bytes which
+                # are missing at the end of the PDU are appended
+                end_pos = pos_before + self.item_byte_size
+                pad_len = end_pos - len(encode_state.coded_message)
+                if pad_len > 0:
+                    encode_state.coded_message += b'\x00' * pad_len
+                    encode_state.used_mask += b'\xff' * pad_len
+                encode_state.cursor_byte_position = end_pos
 
         encode_state.is_end_of_pdu = orig_is_end_of_pdu
 
